@@ -353,9 +353,10 @@ func (t *c15Tap) LogTraffic(id string, tx, rx uint64) bool {
 // "copyTwoWayEx").  The model (model/C15_Sites.v, site_of_caller) knows what each of them does with a refusal; a
 // name it does not know is a report site that is not in the model.
 func c15ReportSite() string {
-	pcs := make([]uintptr, 32)
+	pcs := make([]uintptr, 48)
 	n := runtime.Callers(3, pcs)
 	frames := runtime.CallersFrames(pcs[:n])
+	innermost := "?"
 	for {
 		fr, more := frames.Next()
 		if i := strings.Index(fr.Function, "/server."); i >= 0 && strings.Contains(fr.Function[:i], "hysteria/core") {
@@ -367,10 +368,19 @@ func c15ReportSite() string {
 				name = name[:j]
 			}
 			// "(*udpIOImpl).ReceiveMessage" -> "udpIOImpl.ReceiveMessage"
-			return strings.NewReplacer("(*", "", "(", "", ")", "").Replace(name)
+			name = strings.NewReplacer("(*", "", "(", "", ")", "").Replace(name)
+			// a report made through a helper (say udpIOImpl.logTraffic called by ReceiveMessage) belongs to the
+			// nearest enclosing function that is one of the modelled relay / datagram sites; only when no such
+			// function is on the stack is the innermost core/server function the (unmodelled) site
+			if c15RelaySite(name) {
+				return name
+			}
+			if innermost == "?" {
+				innermost = name
+			}
 		}
 		if !more {
-			return "?"
+			return innermost
 		}
 	}
 }
